@@ -5,6 +5,16 @@ open Model
 open Vutil
 
 let two64 = n_of_hex "10000000000000000"
+
+(* the accuracy field of a thr observable: "-" (not evaluated) or a<k> (distance <= 2^-k) *)
+let acc_k (acc : string) : int option =
+  if acc = "-" then None
+  else if String.length acc >= 2 && acc.[0] = 'a' then Some (int_of_string (String.sub acc 1 (String.length acc - 1)))
+  else fail "C25: bad accuracy field %s" acc
+let acc_ok acc = (match acc_k acc with None -> true | Some k -> k >= 50)
+let acc_tag acc = (match acc_k acc with
+  | None -> []
+  | Some k -> ["acc-checked"; if k >= 80 then "acc-exact" else if k >= 54 then "acc-2^-54" else Printf.sprintf "acc-2^-%d" k])
 let str_thr (o : n outcome) = match o with
   | Ok v -> let (up, lo) = split128 v in
             "ok:" ^ hex_of_n up ^ "," ^ hex_of_n lo
@@ -33,7 +43,7 @@ let thr_model c1 c2 nn obs5 =
                 | Some i when String.sub m 0 i = "ok" ->
                   if m = "ok:ffffffffffffffff,ffffffffffffffff" then "thr-max" else if m = "ok:0,0" then "thr-zero" else "thr-ok"
                 | _ -> "thr-" ^ m) in
-    let tags = String.concat "," ([rcls; ncls] @ (if acc = "1" then ["acc-checked"] else []) @ (if !used then ["pow-used"] else [])) in
+    let tags = String.concat "," ([rcls; ncls] @ acc_tag acc @ (if !used then ["pow-used"] else [])) in
     (m ^ " " ^ String.concat " " [pp; th; pw], !mismatch, tags, c, res, acc)
   | _ -> fail "C25: bad thr observable"
 
@@ -54,12 +64,12 @@ let check inp obs =
        let eq = (m = String.concat " " [res; pp; th; pw]) && not mismatch in
        (* property predicate: the observed threshold is the specified one (= the model's, which
           C25_exact_tail characterises) and, where evaluated, within 2^-50 of the real formula *)
-       let prop = eq && acc <> "0" in
+       let prop = eq && acc_ok acc in
        let nz = z_of_hex nn in
        { prop_ok = prop; model_eq = eq; nontrivial = (match nz with Zpos _ -> pp <> "-" | _ -> false);
          finding = "-"; tags;
          detail = if prop then "" else Printf.sprintf "model=%s%s%s" m (if mismatch then " ORACLE-ARGS-MISMATCH" else "")
-                                         (if acc = "0" then " INACCURATE" else "") }
+                                         (if not (acc_ok acc) then " INACCURATE" else "") }
      | _ -> { (ok ()) with model_eq = false; prop_ok = false; detail = "shape" })
   | ["mono"; c1; c2; c1'; c2'; nn] ->
     (match o with
@@ -74,7 +84,7 @@ let check inp obs =
            ((not le12 || N.leb v1 v2) && (not le21 || N.leb v2 v1),
             if le12 && le21 then "mono-equal-c" else if v1 = v2 then "mono-equal-thr" else "mono-strict")
          | _ -> (true, "mono-vacuous")) in
-       { prop_ok = mono && eq && acc1 <> "0" && acc2 <> "0"; model_eq = eq; nontrivial = (tag <> "mono-vacuous");
+       { prop_ok = mono && eq && acc_ok acc1 && acc_ok acc2; model_eq = eq; nontrivial = (tag <> "mono-vacuous");
          finding = "-"; tags = tag;
          detail = if mono && eq then "" else Printf.sprintf "mono=%b model=%s | %s" mono m1 m2 }
      | _ -> { (ok ()) with model_eq = false; prop_ok = false; detail = "shape" })
@@ -99,4 +109,37 @@ let check inp obs =
       detail = if m = obs then "" else "model=" ^ m }
   | _ -> fail "C25: bad input %s" inp
 
-let () = run_driver check
+(* ---- vm_compute cross-check of the extraction: thr / prim / sec cases recomputed inside Coq
+   (Flocq's binary64 operations and the Gallina BLAKE2b evaluate under vm_compute); helpers
+   ocn_is come from meta.json's vm_header *)
+let coq_z (s : string) : string =
+  if String.length s > 0 && s.[0] = '-' then "(- 0x" ^ String.sub s 1 (String.length s - 1) ^ ")%Z" else "(0x" ^ s ^ ")%Z"
+
+let coq inp obs =
+  match split_ws inp, split_ws obs with
+  | ["thr"; c1; c2; nn], [res; pp; th; pw; _acc] ->
+    let pow = if pp = "-" then "(fun _ _ => f64_nan)" else
+        Printf.sprintf "(fun x y => if andb (N.eqb (f64_bits x) %s) (N.eqb (f64_bits y) %s) then f64_of_bits %s else f64_nan)"
+          (coq_n (n_of_hex pp)) (coq_n (n_of_hex th)) (coq_n (n_of_hex pw)) in
+    let expect = (match res with
+      | "err:zero" -> Some "1 0%N" | "err:gt1" -> Some "2 0%N" | "err:16" -> Some "3 0%N" | "panic" -> Some "99 0%N"
+      | _ -> (match value_of_res res with Some v -> Some ("0 " ^ coq_n v) | None -> None)) in
+    (match expect with
+     | Some e -> Some (Printf.sprintf "ocn_is (calculate_threshold %s %s %s %s) %s" pow (coq_z c1) (coq_z c2) (coq_z nn) e)
+     | None -> None)
+  | ["prim"; _; _; _; _; up; lo], [b; res] when b = "0" || b = "1" ->
+    let thr = N.add (N.mul (n_of_hex up) two64) (n_of_hex lo) in
+    Some (Printf.sprintf "Bool.eqb (check_primary_threshold %s %s) %s" (coq_bytes (bytes_of_hex res)) (coq_n thr)
+            (if b = "1" then "true" else "false"))
+  | ["sec"; rnd; slot; nn], [r] ->
+    let expect = (if r = "panic" then Some "99 0%N"
+                  else if String.length r > 3 && String.sub r 0 3 = "ok:" then
+                    Some ("0 " ^ coq_n (n_of_hex (String.sub r 3 (String.length r - 3))))
+                  else None) in
+    (match expect with
+     | Some e -> Some (Printf.sprintf "ocn_is (secondary_slot_author %s %s %s) %s" (coq_n (n_of_hex slot)) (coq_z nn)
+                         (coq_bytes (bytes_of_hex rnd)) e)
+     | None -> None)
+  | _ -> None
+
+let () = run_driver ~coq check
